@@ -422,7 +422,11 @@ func (r *realm) onLeave(sess *wamp.Session, shutdown, killAll bool) {
 // HandleSession starts a session attached to this realm.
 //
 // Routing occurs only between WAMP Sessions that have joined the same Realm.
-func (r *realm) handleSession(sess *wamp.Session) error {
+//
+// The welcome message is sent to the client before the session's message
+// handler is started. Once the handler runs, it can end the session and close
+// the client's peer at any time, for example when the realm is closed.
+func (r *realm) handleSession(sess *wamp.Session, welcome *wamp.Welcome) error {
 	// The lock is held in mutual exclusion with the closing of the realm. This
 	// ensures that no new session handler can start once the realm is closing,
 	// during which the realm waits for all existing session handlers to exit.
@@ -438,6 +442,7 @@ func (r *realm) handleSession(sess *wamp.Session) error {
 	// Ensure session is capable of receiving exit signal before releasing
 	// lock.
 	r.onJoin(sess)
+	sess.Send() <- welcome // Blocking OK; the client's queue is empty.
 	r.closeLock.Unlock()
 
 	if r.debug {
